@@ -27,9 +27,23 @@ Structural clauses decided (DESIGN.md §2 C09, §7.2):
   C09.GAP    every Gap built by _update_gaps starts no later than the first unwritten slot; a missing
              sample that is not inside a gap records one; _fill_gaps stores only into slices clamped to
              [0, len(data)] (loop body walked with the locals defined before the loop substituted in).
-  C09.IDX    slot number = round((normalised T - alignment origin) / sampling period) modulo capacity.
-The gap-list/data consistency over all histories is NOT decided (inductive data-structure
-invariant, out of reach for this family).
+  C09.IDX    slot number = round((normalised T - alignment origin) / sampling period) modulo capacity;
+             normalize_timestamp goes to a nearest grid point (quotient, or quotient + 1 from half a period on).
+Rules added after the sensitivity sweep (what each small method computes, per path, helpers executed
+interprocedurally, pre-/post-state of a written attribute kept apart):
+  C09.STORE  update(): newest = max(newest, T), oldest = newest - (range - period), value (NaN iff missing) at
+             the slot of T after the bounds moved, _update_gaps(T, newest before the update, missing).
+  C09.FETCH  _wrapped_buffer_window = buffer[s:e], or buffer[s:] ++ buffer[:e] when e <= s; copy on request.
+  C09.COUNT  has_value, time bounds, oldest/newest_timestamp, get_timestamp, covered range, count_covered,
+             count_valid say what the bounds and the gap list say.
+  C09.NONE   a value a path established to be None is not used afterwards on that path.
+  C09.VALID  also: update()/at()/window()/to_internal_index raise only what and when they should; window()
+             fills only a copy, answers empty only for an empty buffer / empty clamped range, projects index
+             queries with slice.indices(count_covered()) before converting them; at() reads by key kind.
+  C09.GAP    also: the full case analysis of _update_gaps, the interval surgery of _remove_gap, the sort +
+             locally sound, progressing walk of _cleanup_gaps, and what _fill_gaps stores for which gap.
+The gap-list/data consistency over all histories is NOT decided (that the walk of _cleanup_gaps leaves a
+sorted, disjoint list is the inductive part; every single step is decided).
 """
 from __future__ import annotations
 
